@@ -53,6 +53,9 @@ def plan(tier, seed):
         shards.append(("learn", pi))
     for a, b in E.chunks(256, 32):
         shards.append(("load", a, b))
+    # one object switched between matrix-fed and metric-fed use through its public properties
+    for a, b in E.chunks(64, 8):
+        shards.append(("toggle", a, b))
     # value tables in unusual numerical regimes: nearly equal weights (relative gaps of a few 1e-6,
     # i.e. inside the default tolerances of "approximately equal" tests) and tiny / huge magnitudes
     for tab in ("near", "tiny", "huge"):
@@ -144,6 +147,11 @@ def programs(shard, seed):
                     yield {"model": "SupervisedOPF", "mode": "pre", "W": Wl, "I_train": train,
                            "labels": list(E.rename_classes(lab, seed)),
                            "batches": [[q]]}
+                    if kind == "g" and n1 == 4:
+                        # identifiers in descending order (identifier 0, when present, is stored last)
+                        yield {"model": "SupervisedOPF", "mode": "pre", "W": Wl, "I_train": train[::-1],
+                               "labels": list(E.rename_classes(lab, seed))[::-1],
+                               "batches": [[q], [q, q]]}
     else:
         _, lk, n, metric, a, b = shard
         if lk == "1dpos":
@@ -312,6 +320,45 @@ def viol(prog, prob, sym):
 _PREV = {}
 
 
+def toggle_programs(shard, seed):
+    """Pairs (A, B) run one after the other on ONE object whose `pre_computed_distance` flag is
+    switched in between: matrix-fed then metric-fed, and the other way round."""
+    _, a, b = shard
+    pts = E.lattice("1d", seed)
+    qs = [[v] for v in (-1.0, 0.0, 0.5, 1.0, 1.5, 2.0, 2.5, 3.0, 9.0)]
+    table = E.value_table(seed, 2)
+    for si in range(a, b):
+        seq = E.sequence_at(4, 3, si)
+        X = [list(pts[i]) for i in seq]
+        for gi in range(E.n_graphs(4, 2)):
+            W = E.matrix_from_ranks(4, E.graph_ranks(4, 2, gi), table).tolist()
+            for kindm in ("SupervisedOPF", "SemiSupervisedOPF"):
+                for lab in ([0, 1, 0], [0, 0, 1]):
+                    A = {"model": kindm, "mode": "pre", "W": W, "I_train": [0, 1, 2], "labels": lab,
+                         "n_unlabeled": 0, "batches": [[3], [3, 3]], "set_flag": True}
+                    B = {"model": kindm, "mode": "features", "X": X, "metric": "euclidean", "labels": lab,
+                         "n_unlabeled": 0, "batches": [qs], "set_flag": True}
+                    yield {"toggle": [A, B]}
+                    yield {"toggle": [B, A]}
+                    if gi % 16 == 5:
+                        yield {"toggle": [A, B, A]}
+
+
+def toggle_case(prog, res=None):
+    steps = prog["toggle"]
+    metric = [p["metric"] for p in steps if p["mode"] == "features"][0]
+    m = sup.fresh_model(steps[0]["model"], metric, steps[0]["mode"] == "pre")
+    for k, p in enumerate(steps):
+        v = run_case(p, res, model=m)
+        if v:
+            v["program"] = prog
+            v["explanation"] = ("step %d of %d on one object (%s): " % (k + 1, len(steps),
+                                " -> ".join(q["mode"] for q in steps))) + v["explanation"]
+            v["fingerprint"] += " (after switching pre_computed_distance)" if k else ""
+            return v
+    return None
+
+
 def _key(prog):
     return sup.cache_key(prog) if prog["model"] in ("SupervisedOPF", "SemiSupervisedOPF") else None
 
@@ -366,6 +413,23 @@ def run_special(shard, seed, res):
 
 def run(shard, seed):
     res = Result()
+    if shard[0] == "toggle":
+        prog = None
+        for prog in toggle_programs(shard, seed):
+            try:
+                with horizon(20.0):
+                    v = toggle_case(prog, res)
+            except Horizon as hz:
+                v = viol(prog, str(hz), "no termination")
+            res.evaluations += sum(len(b) for p in prog["toggle"] for b in p["batches"])
+            res.states += 1
+            res.traces += 1
+            if v:
+                res.violations.append(v)
+                if res.full:
+                    break
+        res.sample(prog, 1)
+        return res
     if shard[0] in ("learn", "load"):
         return run_special(shard, seed, res)
     k = 0
@@ -384,8 +448,7 @@ def run(shard, seed):
         k += 1
         if v:
             prev = _PREV.get(_key(prog)) if _key(prog) is not None else None
-            if prev is not None and "previous" not in v["program"]:
-                v["program"] = dict(v["program"], previous=prev)
+            sup.with_history(v, prev)
             res.violations.append(v)
             if res.full:
                 break
@@ -395,6 +458,8 @@ def run(shard, seed):
 
 def replay(case):
     p = case["program"]
+    if "toggle" in p:
+        return toggle_case(p)
     if "learn" in p:
         return learn_case(p)
     if p.get("route") == "load":
